@@ -99,3 +99,43 @@ PROPS["C03"] = {
     "assumptions": ["reference unmarshaller vref::dbus enforces exactly the rejection causes the property lists (plus truncation)",
                     "value equality is not judged for dicts whose wire form repeats a key; fd indices are checked against the 2 supplied fds"],
 }
+
+PROPS["C04"] = {
+    "level": "exploration",
+    "plan": zv_plan(["", "gvariant,option-as-array"], FEATS4, ("release", "asan", "miri")),
+    "rule": ("hostile inputs (1-2 stacked structure-aware or byte-level mutations of valid D-Bus/GVariant encodings, random bytes, "
+             "hand-made vectors: huge length prefixes, 5000-deep variant chains, 255-byte signatures, maybe signatures in D-Bus "
+             "data, out-of-range/backward GVariant offsets) decoded as dynamic and typed targets in every format of the feature "
+             "build, under catch_unwind + shard journal (process death) + counting-allocator bound 512*(input+sig)+1MiB; every "
+             "decoded value is re-encoded; distinct = distinct (signature, format, input kind)"),
+    "gates": {"quick": {"evaluations": 200000, "distinct": 5000, "class:decoded": 20000, "class:reencoded": 20000},
+              "thorough": {"evaluations": 10000000, "distinct": 100000}},
+    "assumptions": ["the allocation bound is deliberately loose (a legitimate ay -> Vec<Value> expansion is ~100x)",
+                    "quick tier runs the no-feature and gvariant+option-as-array builds; thorough all four"],
+}
+
+PROPS["C07"] = {
+    "level": "exploration",
+    "plan": zv_plan(["gvariant"], ["", "gvariant"], ("release",)),
+    "rule": ("values built as chains of a arrays/dicts, s structures and v variants (boundary band of {0,1,2,30..34,40} x "
+             "{0..2,29..35,60..66} in quick, the full 41^3 grid in thorough) in grouped/round-robin/shuffled orders, some with two deep "
+             "siblings in one struct (depth must not leak), encoded by the library and decoded from reference-serialised bytes in "
+             "both formats; outcome compared with the arithmetic on the three limits; distinct = distinct (a, s, v, format)"),
+    "gates": {"quick": {"evaluations": 5000, "distinct": 1000, "class:within-limits": 500, "class:beyond-limits": 500},
+              "thorough": {"evaluations": 200000, "distinct": 50000}},
+    "assumptions": ["an excess inside one variant-delimited signature may be reported as an invalid signature (C06) instead of MaxDepthExceeded; counted separately",
+                    "dicts count as arrays, dict entries are not counted as structures (as the property states the limits)"],
+}
+
+PROPS["C08"] = {
+    "level": "exploration",
+    "plan": zv_plan(["gvariant"], ["", "gvariant"], ("release", "miri")),
+    "rule": ("triples of nested Values generated to be equal / one-leaf-different / unrelated (incl. signed zeros, NaNs, fds, maybe) "
+             "checked against reflexivity, symmetry, transitivity, cmp antisymmetry/transitivity, cmp==Equal<=>==, partial_cmp==cmp, "
+             "equal=>equal hash, try_clone/try_to_owned/OwnedValue preserving == and signature, value_signature == signature on the "
+             "wire, and == agreeing with a structural model; plus std-type -> Value -> std-type conversions; distinct = distinct "
+             "(signature triple, equality pattern)"),
+    "gates": {"quick": {"evaluations": 50000, "distinct": 5000, "class:equal-pair": 20000, "class:unequal-pair": 20000, "conversion_checks": 5000},
+              "thorough": {"evaluations": 5000000, "distinct": 100000}},
+    "assumptions": ["values containing NaN are a listed deviation: their law failures are reported under it, all NaN-free values are judged strictly"],
+}
